@@ -154,6 +154,8 @@ def origin_of(v):
         return v.data
     if isinstance(v, Opaque) and v.kind == "Ident":
         return v.data[1]
+    if isinstance(v, Opaque) and v.kind == "LitStr" and isinstance(v.data, tuple) and v.data and v.data[0] == "new":
+        return v.data[2]      # LitStr::new(text, span): the span it was given
     return None
 
 
@@ -272,6 +274,36 @@ def m_parser_parse2(I, st, inst, args):
     return Lazy(name, inst.sig[-1])
 
 
+def _short_ty(I, tid):
+    t = I.types[tid]
+    return (t.str or "?").replace("std::result::Result<", "").split(", syn::Error")[0].replace("syn::", "").replace(" ", "")
+
+
+@model("syn::LitStr::parse::<*>", "syn::LitStr::parse_with::<*>")
+def m_litstr_parse(I, st, inst, args):
+    """parsing the contents of a string literal as T: an uninterpreted outcome per (literal, T) - Ok(a fresh symbolic T) or Err"""
+    v = I.read(st, args[0])
+    if isinstance(v, Opaque) and v.data and v.data[0] == "in":
+        origin = v.data[1]
+    elif isinstance(v, Opaque) and v.data and v.data[0] == "new":
+        origin = "new(%s)" % (tosym(v.data[1]).sexpr() if not isinstance(v.data[1], str) else v.data[1])
+    else:
+        raise Unsupported("LitStr::parse of %r" % (v,))
+    return Lazy("parse<%s>(%s)" % (_short_ty(I, inst.sig[-1]), origin), inst.sig[-1])
+
+
+@model("syn::parse_str::<*>")
+def m_parse_str(I, st, inst, args):
+    s_ = str_of(I, st, args[0])
+    key = s_ if isinstance(s_, str) else tosym(s_).sexpr()
+    return Lazy("parse_str<%s>(%s)" % (_short_ty(I, inst.sig[-1]), key), inst.sig[-1])
+
+
+@model("syn::LitStr::new")
+def m_litstr_new(I, st, inst, args):
+    return Opaque("LitStr", ("new", str_of(I, st, args[0]), span_of(args[1]).data))
+
+
 # ---------------------------------------------------------------------------- syn::Error
 @model("syn::Error::new::<*>", aux="display:0")
 def m_syn_error_new(I, st, inst, args):
@@ -344,6 +376,8 @@ def lit_name(v):
 @model("syn::LitStr::value")
 def m_litstr_value(I, st, inst, args):
     v = I.read(st, args[0])
+    if isinstance(v, Opaque) and v.data and v.data[0] == "new":
+        return StringVal(v.data[1])
     pol = I.policy
     s = pol.str_content(I, st, lit_name(v) + ".value") if pol is not None else None
     return StringVal(s if s is not None else z3.String(lit_name(v) + ".value"))
